@@ -60,7 +60,8 @@ def site_programs(op, a, b):
     return {
         "signal-literal": [inp, ("sig", "x", ("bin", "+", ("var", 0), ("lit", "signal-B", k)))],
         "operand": [inp, ("sig", "x", ("bin", "+", ("var", 0), k))],
-        "declaration": [inp, ("int", "k", k), ("sig", "x", ("bin", "-", ("var", 0), ("var", 1)))],
+        # comparisons and logical operators yield signals (LANGUAGE_SPEC): declared as Signal, not int
+        "declaration": [inp, ("int" if op in fa.AOPS else "sig", "k", k), ("sig", "x", ("bin", "-", ("var", 0), ("var", 1)))],
         "condition": [inp, ("sig", "x", ("cond", ("cmp", ">", ("var", 0), k), ("int", 7)))],
         "projection": [inp, ("sig", "x", ("bin", "*", ("proj", k, "signal-C"), ("var", 0)))],
     }
